@@ -50,13 +50,13 @@ def lit (s : String) : Str := s.toList.map Char.toNat
 def isStemCh (c : Nat) : Bool := !(Nat.beq c 59 || Nat.beq c 47)
 /-- `[^ '∥' | '/']` -/
 def isAnnoCh (c : Nat) : Bool := !(Nat.beq c 0x2225 || Nat.beq c 47)
-/-- `['a'..='z' | '>' | '<' | '#' | '*' | '-' | '(' | ')' | 'φ' | '.']` -/
-def isClassCh (c : Nat) : Bool :=
-  isAlpha c || Nat.beq c 62 || Nat.beq c 60 || Nat.beq c 35 || Nat.beq c 42 || Nat.beq c 45 || Nat.beq c 40 ||
-  Nat.beq c 41 || Nat.beq c 0x3C6 || Nat.beq c 46
-/-- `rule katakana()`: the row letters ア カ サ タ ナ ハ マ ヤ ワ ラ ダ バ ガ ザ -/
-def isRowKata (c : Nat) : Bool :=
-  [0x30A2, 0x30AB, 0x30B5, 0x30BF, 0x30CA, 0x30CF, 0x30DE, 0x30E4, 0x30EF, 0x30E9, 0x30C0, 0x30D0, 0x30AC, 0x30B6].any (Nat.beq c)
+def inRanges (rs : List (Nat × Nat)) (c : Nat) : Bool := rs.any fun r => Nat.ble r.1 c && Nat.ble c r.2
+/-- `rule char_class()`'s class `['a'..='z' | '>' | '<' | '#' | '*' | '-' | '(' | ')' | 'φ' | '.']` (generated) -/
+def isClassCh (c : Nat) : Bool := inRanges Chokan.Gen.SkkNotes.classRanges c
+/-- `rule katakana()`: the row letters ア カ サ タ ナ ハ マ ヤ ワ ラ ダ バ ガ ザ (generated) -/
+def isRowKata (c : Nat) : Bool := Chokan.Gen.SkkNotes.rowKata.any (Nat.beq c)
+/-- `rule kana()` of the notes grammar (generated ranges) -/
+def notesKana (c : Nat) : Bool := inRanges Chokan.Gen.SkkNotes.kanaRanges c
 
 /-! ### okuri -/
 
@@ -64,7 +64,7 @@ def isRowKata (c : Nat) : Bool :=
 def parseDashKana (s : Str) : Option (Str × Str) :=
   match s with
   | 45 :: r =>
-    match spanClass skkKana r with
+    match spanClass notesKana r with
     | ([], _) => none
     | (k, r') => some (k, r')
   | _ => none
@@ -129,8 +129,8 @@ def parseOkuriOpt (s : Str) : Option Okuri × Str :=
 
 /-! ### speeches -/
 
-def nounTags : List Str :=
-  ["サ変名詞", "代名詞", "名詞", "人称代名詞", "疑問代名詞", "連語", "複合語", "成句", "連句", "連濁"].map lit
+/-- `rule noun()`'s tags, in the order of the ordered choice (generated) -/
+def nounTags : List Str := Chokan.Gen.SkkNotes.nounTags
 
 def firstLit : List Str → Str → Option (Str × Str)
   | [], _ => none
@@ -138,9 +138,8 @@ def firstLit : List Str → Str → Option (Str × Str)
     | some r => some (l, r)
     | none => firstLit t s
 
-def verbSuffixes : List (Str × VerbClass) :=
-  [(lit "行五段", .godan), (lit "行四段", .yodan), (lit "行上一", .kamiIchidan), (lit "行下一", .simoIchidan),
-   (lit "行上二", .kamiNidan), (lit "行下二", .simoNidan), (lit "変", .hen)]
+/-- `rule verb_form()`: suffix → class (generated) -/
+def verbSuffixes : List (Str × VerbClass) := Chokan.Gen.SkkNotes.verbSuffixes
 
 /-- One alternative of the speech list: `some (some sp, rest)`, `some (none, rest)` for 補助動詞. -/
 def parseSpeech1 (s : Str) : Option (Option NoteSpeech × Str) :=
@@ -201,7 +200,7 @@ def parseSpeechList : Nat → Str → List (Option NoteSpeech) × Str
       let (l, r') := more fuel r
       (sp :: l, r')
 
-def speechHeaders : List Str := ["<base>", "(文語)", "文語", "(連濁)"].map lit
+def speechHeaders : List Str := Chokan.Gen.SkkNotes.speechHeaders
 
 /-- `rule note_in_entry() = space()* "¶" [^ '/']*`, optional as a whole. -/
 def skipNoteInEntry (s : Str) : Str :=
@@ -281,8 +280,8 @@ def parseNote (s : Str) : PRes :=
   match s with
   | 59 :: _ => .none                                   -- comment() = ";" any()*
   | _ =>
-    let h := (spanClass skkKana s).1
-    let r1 := (spanClass skkKana s).2
+    let h := (spanClass notesKana s).1
+    let r1 := (spanClass notesKana s).2
     let o := (noteOkuri r1).1
     let r2 := (noteOkuri r1).2
     let sp := (spanClass isSpace r2).1
